@@ -436,6 +436,7 @@ RULE = (
     "bound for the mean width, own sum p log2(p/m) for the divergence. Non-trivial = flat cloud, closed-form or triangulated volume, width "
     "relations, strictly larger superset, distributions with zeros."
     " Shapes may be thin (aspect ratios down to 1e-4) but of unambiguous affine dimension (singular value ratio >= 1e-6). Gamut: centring options, at_l1 against the exact slice. Estimator: K vector and baseline scalar/vector; fraction=True against the metric of the bound corners relative to the hand-built perfect system (relative and absolute), fraction=False and at_l1 against the same metric of the corners / their exact slice."
+    " Mean width: the same whole-number cloud (0..7 per axis) as int64 array / list of ints and as floats gives equal widths for all four option combinations."
 )
 
 PROP = Prop(
